@@ -118,6 +118,8 @@ type FnVC struct {
 	arrSlices map[string]arrSlice
 	localKeys map[string]string
 	loopFresh map[string]bool
+	atDone    map[string]bool
+	atUsed    []string
 }
 
 type arrSlice struct{ arr, lo string }
